@@ -9,9 +9,26 @@ from ..lean import fbits, cbits, parse_floats, run_driver
 
 ID = 'C07'
 DRIVERS = ('driver_dist',)
-THEOREMS = [
-]
+THEOREMS = ['PbBss.C07.' + t for t in [
+    'gaussian_full_logPdf', 'gaussian_contract_forces_invertible',
+    'gaussian_diag_logPdf', 'gaussian_diag_ofCov', 'gaussian_spherical_logPdf', 'gaussian_spherical_ofCov',
+    'gaussians_integrate_to_one', 'gaussian_diag_is_product_density',
+    'cgauss_logPdf', 'cgauss_integrates_to_one', 'vmf_logPdf', 'vmf_pdf', 'vmf_D1_sums_to_one', 'watson_logPdf', 'watson_integrates_to_one',
+    'bingham_norm_raw', 'bingham_norm', 'bingham_norm_of_gaps', 'bingham_logPdf', 'bingham_sorted', 'bingham_spread_order',
+    'bingham_spread_idempotent', 'bingham_spread_moves',
+    'cacg_logPdf', 'cacg_spectral', 'cacg_integrates_to_sphere_area',
+]]
 ASSUMPTIONS = [
+    'contracts of the externals, re-checked numerically per run (contract:* correspondence rows): sklearn precision-Cholesky '
+    'P upper triangular with P P^T = inv(cov) and log-det = sum log P_ii; slogdet = log|det|; solve residual; '
+    'ive(v,k) = I_v(k) exp(-k); hyp1f1(1,D,k) = M(1;D;k); stored eigenvectors unitary',
+    'normalisation IS a theorem for the real Gaussians, the complex Gaussian (Lebesgue measure), cACG (sphere area) and complex '
+    'Watson (surface measure Measure.toSphere of Lebesgue measure on C^D; mode = column of a unitary matrix; hyp1f1 at its '
+    'series value); NOT a theorem (named gap): exp(log_pdf) integrates to one over the sphere for von Mises-Fisher (D >= 2) '
+    'and complex Bingham - Mathlib has no Bessel functions; supported by the quadrature oracles on the real code only',
+    'Float vs R: rounding is outside the theorems; ComplexBingham.norm cancels catastrophically for clustered eigenvalues '
+    '(known finding bingham-norm-cancellation)',
+    'vMF/cACG theorems assume a non-zero observation whose norm / quadratic form is above the np.finfo.tiny floor',
 ]
 
 from pb_bss.distribution.gaussian import Gaussian, DiagonalGaussian, SphericalGaussian  # noqa: E402
@@ -38,6 +55,11 @@ def _close(got, want, rtol, atol):
     lim = atol + rtol * np.abs(want)
     bad = ~(err <= lim)
     return (not bad.any()), float(np.max(err / lim)) if err.size else 0.0
+
+
+def _pdf_is_exp(pdf, logpdf):
+    e = np.exp(logpdf)
+    return pdf.shape == e.shape and bool(np.all((pdf == e) | (np.abs(pdf - e) <= 1e-12 * np.abs(e)) | (np.isnan(pdf) & np.isnan(e))))
 
 
 def _cov_matrix(kind, c, D):
@@ -69,7 +91,6 @@ def gaussian_vs_scipy(kind, mean, covariance, y):
     mb = np.broadcast_to(mean, out_shape[:-1] + (D,))
     cshape = {'full': (D, D), 'diagonal': (D,), 'spherical': ()}[kind]
     cb = np.broadcast_to(covariance, out_shape[:-1] + cshape)
-    worst = 0.0
     for idx in _lead_iter(out_shape[:-1]):
         cm = _cov_matrix(kind, cb[idx], D)
         ev = np.linalg.eigvalsh(cm)
@@ -79,7 +100,9 @@ def gaussian_vs_scipy(kind, mean, covariance, y):
         want = du.ref_gaussian(mb[idx], cm, yb[idx])
         # rounding: the Mahalanobis term carries a relative error ~ cond * eps in any evaluation
         ok, ratio = _close(got[idx], want, rtol=1e-10 + 2e-14 * cond, atol=1e-10)
-        worst = max(worst, ratio)
+        if ok:                                   # second, scipy-free evaluation: the textbook closed form
+            want = du.ref_gaussian_eig(mb[idx], cm, yb[idx])
+            ok, ratio = _close(got[idx], want, rtol=1e-10 + 2e-14 * cond, atol=1e-10)
         if not ok:
             return Fail(f'{kind}-value', f'{GAUSS[kind].__name__}.log_pdf differs from scipy.stats.multivariate_normal '
                         f'at leading index {idx}: got {np.asarray(got[idx]).ravel()[:3]}, want {want.ravel()[:3]} '
@@ -109,6 +132,9 @@ def cgauss_vs_real_composite(covariance, y):
             return Skip('covariance outside the domain (not PD or condition > 1e8)')
         want = du.ref_cgauss(cb[idx], yb[idx])
         ok, ratio = _close(got[idx], want, rtol=1e-10 + 2e-14 * cond, atol=1e-10)
+        if ok:                                   # second evaluation: -D log pi - log det C - y^H C^-1 y by eigh
+            want = du.ref_cgauss_eig(cb[idx], yb[idx])
+            ok, ratio = _close(got[idx], want, rtol=1e-10 + 2e-14 * cond, atol=1e-10)
         if not ok:
             return Fail('cgauss-value', f'log_pdf differs from the real-composite Gaussian at {idx}: got '
                         f'{np.asarray(got[idx]).ravel()[:3]}, want {want.ravel()[:3]} (D={D}, cond={cond:.3g}, '
@@ -122,9 +148,13 @@ def vmf_vs_scipy(mean, concentration, y):
     D = mean.shape[-1]
     lead = mean.shape[:-1]
     try:
-        got = np.asarray(VonMisesFisher(mean=mean.copy(), concentration=concentration.copy()).log_pdf(y.copy()))
+        model = VonMisesFisher(mean=mean.copy(), concentration=concentration.copy())
+        got = np.asarray(model.log_pdf(y.copy()))
+        pdf = np.asarray(model.pdf(y.copy()))
     except Exception as e:
-        return Fail('vmf-raises', f'log_pdf raised {type(e).__name__}: {e}')
+        return Fail('vmf-raises', f'log_pdf / pdf raised {type(e).__name__}: {e}')
+    if not _pdf_is_exp(pdf, got):
+        return Fail('vmf-pdf', 'pdf(y) != exp(log_pdf(y))')
     N = y.shape[-2]
     out_shape = np.broadcast_shapes(lead, y.shape[:-2]) + (N,)
     if got.shape != out_shape:
@@ -151,9 +181,13 @@ def watson_closed_form(mode, concentration, y):
     D = mode.shape[-1]
     lead = mode.shape[:-1]
     try:
-        got = np.asarray(ComplexWatson(mode=mode.copy(), concentration=concentration.copy()).log_pdf(y.copy()))
+        model = ComplexWatson(mode=mode.copy(), concentration=concentration.copy())
+        got = np.asarray(model.log_pdf(y.copy()))
+        pdf = np.asarray(model.pdf(y.copy()))
     except Exception as e:
-        return Fail('watson-raises', f'log_pdf raised {type(e).__name__}: {e}')
+        return Fail('watson-raises', f'log_pdf / pdf raised {type(e).__name__}: {e}')
+    if not _pdf_is_exp(pdf, got):
+        return Fail('watson-pdf', 'pdf(y) != exp(log_pdf(y))')
     N = y.shape[-2]
     out_shape = np.broadcast_shapes(lead, y.shape[:-2]) + (N,)
     if got.shape != out_shape:
@@ -185,9 +219,13 @@ def bingham_closed_form(eigenvectors, eigenvalues, y):
     D = eigenvalues.shape[-1]
     lead = eigenvalues.shape[:-1]
     try:
-        got = np.asarray(ComplexBingham(eigenvectors.copy(), eigenvalues.copy()).log_pdf(y.copy()))
+        model = ComplexBingham(eigenvectors.copy(), eigenvalues.copy())
+        got = np.asarray(model.log_pdf(y.copy()))
+        pdf = np.asarray(model.pdf(y.copy()))
     except Exception as e:
-        return Fail('bingham-raises', f'log_pdf raised {type(e).__name__}: {e}')
+        return Fail('bingham-raises', f'log_pdf / pdf raised {type(e).__name__}: {e}')
+    if not _pdf_is_exp(pdf, got):
+        return Fail('bingham-pdf', 'pdf(y) != exp(log_pdf(y))')
     N = y.shape[-2]
     out_shape = np.broadcast_shapes(lead, y.shape[:-2]) + (N,)
     if got.shape != out_shape:
@@ -348,7 +386,7 @@ def search(ctx):
              ('diagonal', 3, (), 100.0, 'diagonal', 2, False), ('diagonal', 2, (3,), 10.0, 'diagonal', 4, True),
              ('diagonal', 4, (2, 2), 1e3, 'diagonal', 3, False),
              ('spherical', 3, (2,), 1.0, 'diagonal', 5, False), ('spherical', 2, (2, 3), 1.0, 'diagonal', 2, True)]
-    n = ctx.n(260, 6000)
+    n = ctx.n(700, 8000)
     for i in range(n + len(fixed)):
         if ctx.out_of_time(60):
             break
@@ -373,7 +411,7 @@ def search(ctx):
             ctx.sample({'oracle': 'gaussian_vs_scipy', 'kind': kind, 'D': D, 'lead': list(lead), 'cond': cond,
                         'cov_kind': ckind, 'y_shape': list(y.shape), 'held': held})
     # ---- complex circular Gaussian
-    for i in range(ctx.n(120, 3000)):
+    for i in range(ctx.n(300, 4000)):
         if ctx.out_of_time(50):
             break
         D = int(rng.integers(1, 9))
@@ -389,7 +427,7 @@ def search(ctx):
         if i == 0:
             ctx.sample({'oracle': 'cgauss_vs_real_composite', 'D': D, 'lead': list(lead), 'cond': cond, 'held': held})
     # ---- von Mises-Fisher
-    for i in range(ctx.n(200, 5000)):
+    for i in range(ctx.n(500, 6000)):
         if ctx.out_of_time(45):
             break
         D = int(rng.integers(1, 9))
@@ -404,7 +442,7 @@ def search(ctx):
         if i == 0:
             ctx.sample({'oracle': 'vmf_vs_scipy', 'D': D, 'lead': list(lead), 'kappa': kappa.tolist(), 'held': held})
     # ---- complex Watson
-    for i in range(ctx.n(200, 5000)):
+    for i in range(ctx.n(500, 6000)):
         if ctx.out_of_time(40):
             break
         D = int(rng.integers(2, 7))
@@ -417,7 +455,7 @@ def search(ctx):
         ctx.count(f'search-watson-D{D}')
         ctx.run(watson_closed_form, mode=mode, concentration=kappa, y=y)
     # ---- complex Bingham
-    for i in range(ctx.n(200, 5000)):
+    for i in range(ctx.n(500, 6000)):
         if ctx.out_of_time(35):
             break
         D = int(rng.integers(2, 7))
@@ -437,7 +475,7 @@ def search(ctx):
         ctx.count(f'search-bingham-D{D}')
         ctx.run(bingham_closed_form, eigenvectors=U, eigenvalues=lam, y=y)
     # ---- complex angular central Gaussian
-    for i in range(ctx.n(200, 5000)):
+    for i in range(ctx.n(500, 6000)):
         if ctx.out_of_time(30):
             break
         D = int(rng.integers(2, 7))
@@ -462,7 +500,7 @@ def _search_quadrature(ctx):
     rng = ctx.rng
     thorough = ctx.tier != 'quick'
     # ---- von Mises-Fisher, D = 1..8
-    for i in range(ctx.n(48, 600)):
+    for i in range(ctx.n(100, 800)):
         if ctx.out_of_time(20):
             break
         D = int(rng.integers(1, 9)) if i >= 8 else i + 1
@@ -484,7 +522,7 @@ def _search_quadrature(ctx):
     # ---- complex families on the unit sphere of C^D.  Node budget limits kappa / condition for the larger D.
     budget = 1500000 if thorough else 60000
     dims = [2, 3, 4, 5, 6] if thorough else [2, 2, 3, 3, 4]
-    for i in range(ctx.n(45, 450)):
+    for i in range(ctx.n(90, 600)):
         if ctx.out_of_time(8):
             break
         fam = ['watson', 'bingham', 'cacg'][i % 3]
@@ -580,7 +618,7 @@ def _cmp(ctx, op, want, scale, data, pick=0):
 
 def _corr_gauss(ctx, B):
     rng = ctx.rng
-    for i in range(ctx.n(60, 1500)):
+    for i in range(ctx.n(150, 2000)):
         kind = ['full', 'diagonal', 'spherical'][i % 3]
         D = int(rng.integers(1, 9))
         lead = du.pick_lead(rng) if i % 2 else ()
@@ -637,7 +675,7 @@ def _corr_gauss(ctx, B):
 
 def _corr_cgauss(ctx, B):
     rng = ctx.rng
-    for i in range(ctx.n(30, 800)):
+    for i in range(ctx.n(80, 1000)):
         D = int(rng.integers(1, 9))
         lead = du.pick_lead(rng) if i % 2 else ()
         cond = du.pick_cond(rng)
@@ -667,7 +705,7 @@ def _corr_cgauss(ctx, B):
 def _corr_vmf(ctx, B):
     from scipy.special import ive, iv
     rng = ctx.rng
-    for i in range(ctx.n(60, 1500)):
+    for i in range(ctx.n(150, 2000)):
         D = int(rng.integers(1, 9))
         lead = du.pick_lead(rng) if i % 2 else ()
         mean = du.unit(rng.normal(size=tuple(lead) + (D,)))
@@ -700,7 +738,7 @@ def _corr_vmf(ctx, B):
 def _corr_watson(ctx, B):
     from scipy.special import hyp1f1
     rng = ctx.rng
-    for i in range(ctx.n(60, 1500)):
+    for i in range(ctx.n(150, 2000)):
         D = int(rng.integers(2, 7))
         lead = du.pick_lead(rng) if i % 2 else ()
         mode = du.unit(du.observations(rng, lead, 1, D, True)[..., 0, :])
@@ -729,7 +767,7 @@ def _corr_bingham(ctx, B):
     import inspect
     rng = ctx.rng
     eps = float(inspect.signature(ComplexBingham.norm).parameters['eps'].default)
-    for i in range(ctx.n(60, 1500)):
+    for i in range(ctx.n(150, 2000)):
         D = int(rng.integers(2, 7))
         lead = du.pick_lead(rng) if i % 2 else ()
         degenerate = (i % 5 == 4)
@@ -785,7 +823,7 @@ def _corr_bingham(ctx, B):
 def _corr_cacg(ctx, B):
     from pb_bss.distribution.complex_angular_central_gaussian import normalize_observation
     rng = ctx.rng
-    for i in range(ctx.n(60, 1500)):
+    for i in range(ctx.n(150, 2000)):
         D = int(rng.integers(2, 7))
         lead = du.pick_lead(rng) if i % 2 else ()
         cond = du.pick_cond(rng)
@@ -817,11 +855,11 @@ def _corr_cacg(ctx, B):
 
 
 def corr(ctx):
+    import traceback
     B = _Batch()
-    _corr_gauss(ctx, B)
-    _corr_cgauss(ctx, B)
-    _corr_vmf(ctx, B)
-    _corr_watson(ctx, B)
-    _corr_bingham(ctx, B)
-    _corr_cacg(ctx, B)
+    for fam in (_corr_gauss, _corr_cgauss, _corr_vmf, _corr_watson, _corr_bingham, _corr_cacg):
+        try:                       # a family whose real code raises must not hide the other families
+            fam(ctx, B)
+        except Exception:
+            ctx.corr(f'{fam.__name__}-crash', False, traceback.format_exc(limit=6))
     B.flush()
